@@ -3,6 +3,7 @@ package main
 import (
 	"math/rand"
 	"strconv"
+	"strings"
 
 	"verifharness/kvh"
 	"verifharness/vu"
@@ -51,6 +52,25 @@ func c23History(r *rand.Rand) []string {
 		p := c23Prefixes[r.Intn(len(c23Prefixes))]
 		handles = append(handles, "0/"+p)
 		hints = append(hints, p)
+	}
+	if r.Intn(3) == 0 {
+		// a tree of tables: 2-4 sibling sub-tables (NewTable) of one kept parent, nested 1-3 levels,
+		// all used interleaved; each is the view of the store restricted to the concatenated prefix
+		sub := []string{"61", "62", "00", "ff", "6161", "-"}
+		parent := strconv.Itoa(r.Intn(depth + 1))
+		for lvl := 1 + r.Intn(3); lvl > 0; lvl-- {
+			parent += "/" + c23Prefixes[r.Intn(len(c23Prefixes))]
+			k := 2 + r.Intn(3)
+			first := r.Intn(len(sub))
+			var sibs []string
+			for j := 0; j < k; j++ {
+				sibs = append(sibs, parent+"/"+sub[(first+j)%len(sub)])
+			}
+			handles = append(handles, sibs...)
+			handles = append(handles, sibs...)
+			parent = sibs[r.Intn(len(sibs))]
+			parent = parent[:strings.LastIndex(parent, "/")] + "/" + sub[(first+r.Intn(k))%len(sub)]
+		}
 	}
 	return kvh.Gen(r, kvh.GenCfg{Header: header, Handles: handles, NOps: 10 + r.Intn(50),
 		BigValues: r.Intn(15) == 0, SweepPairs: 8, KeyHints: hints,
